@@ -1492,6 +1492,19 @@ def _mt_len(ck, repo, nf):
                 continue
         break
     tot = False
+    if isinstance(rv, ast.Name):
+        # the written-out sum:  total = 0 / for b in self.buffers: total += len(b) / return total
+        ds = cfg.defs_of(rets[0].id, rv.id)
+        zero = [d for d in ds if d.kind == "assign" and isinstance(d.value, ast.Constant) and d.value.value == 0]
+        augs = [d for d in ds if d.kind == "aug"]
+        if len(ds) == 2 and len(zero) == 1 and len(augs) == 1:
+            st = cfg.nodes[augs[0].node].ast
+            loops_ = [cfg.nodes[h].ast for h in cfg.enclosing_loops(augs[0].node)]
+            if isinstance(st, ast.AugAssign) and isinstance(st.op, ast.Add) and len(loops_) == 1 and isinstance(loops_[0], ast.For) and dotted(loops_[0].iter) == "self.buffers" \
+                    and isinstance(loops_[0].target, ast.Name) and not loops_[0].orelse and not any(isinstance(x, (ast.Break, ast.Continue, ast.If)) for x in ast.walk(loops_[0])):
+                t = loops_[0].target.id
+                el = st.value
+                tot = (isinstance(el, ast.Call) and dotted(el.func) == "len" and len(el.args) == 1 and dotted(el.args[0]) == t and not el.keywords) or dotted(el) == f"{t}.current_len"
     if isinstance(rv, ast.Call) and dotted(rv.func) in ("sum", "np.sum", "numpy.sum") and rv.args and not rv.keywords:
         a0 = rv.args[0]
         if isinstance(a0, (ast.GeneratorExp, ast.ListComp)) and len(a0.generators) == 1 and dotted(a0.generators[0].iter) == "self.buffers" and not a0.generators[0].ifs and isinstance(a0.generators[0].target, ast.Name):
